@@ -44,7 +44,7 @@ use std::{
     collections::BTreeMap,
     future::Future,
     pin::Pin,
-    sync::{Arc, Mutex},
+    sync::Arc,
 };
 
 use n0_error::{AnyError, e, stack_error};
@@ -97,7 +97,8 @@ use crate::{
 pub struct Router {
     endpoint: Endpoint,
     // `Router` needs to be `Clone + Send`, and we need to `task.await` in its `shutdown()` impl.
-    task: Arc<Mutex<Option<AbortOnDropHandle<()>>>>,
+    // All callers of `shutdown()` wait on this (async) mutex until the task has finished.
+    task: Arc<tokio::sync::Mutex<Option<AbortOnDropHandle<()>>>>,
     cancel_token: CancellationToken,
 }
 
@@ -427,19 +428,20 @@ impl Router {
     /// If some [`ProtocolHandler`] panicked in the accept loop, this will propagate
     /// that panic into the result here.
     pub async fn shutdown(&self) -> Result<(), n0_future::task::JoinError> {
-        if self.is_shutdown() {
-            return Ok(());
-        }
-
         // Trigger shutdown of the main run task by activating the cancel token.
         self.cancel_token.cancel();
 
         // Wait for the main task to terminate.
-
-        // MutexGuard is not held across await point
-        let task = self.task.lock().expect("poisoned").take();
-        if let Some(task) = task {
-            task.await?;
+        //
+        // The async mutex is held while waiting, so concurrent callers (on any clone) queue
+        // up behind the first one and only return once the task has finished.  The handle
+        // stays in place until the task has completed, so a caller whose future is dropped
+        // does not abort the shutdown underneath the other callers.
+        let mut task = self.task.lock().await;
+        if let Some(handle) = task.as_mut() {
+            let res = handle.await;
+            *task = None;
+            res?;
         }
 
         Ok(())
@@ -616,7 +618,7 @@ impl RouterBuilder {
 
         Router {
             endpoint: self.endpoint,
-            task: Arc::new(Mutex::new(Some(task))),
+            task: Arc::new(tokio::sync::Mutex::new(Some(task))),
             cancel_token: cancel,
         }
     }
